@@ -19,7 +19,7 @@ RULE = ("two inverter objects (all ordered pairs of 8 templates: ET 205 eco-v2 /
         "contents run a sequence of <= 4 calls from {read_runtime_data, read/write of each setting kind, set_operation_mode, "
         "get_operation_mode, read_settings_data}; per scenario the two SOLO transcripts and several INTERLEAVED transcripts (call-level "
         "merges: A-then-B, B-then-A, alternating, random; and concurrent tasks with response latency so that one object's multi-step "
-        "call is interleaved inside by the other's; also with inverters that answer every request in two pieces) are each produced in a FRESH interpreter (the state under test is "
+        "call is interleaved inside by the other's; also with inverters that answer every request in two pieces, and with one object that has ~65 500 Modbus/TCP requests behind it) are each produced in a FRESH interpreter (the state under test is "
         "process-global); per object the requests seen by its simulator (Modbus/TCP transaction id masked) and the results must "
         "equal the solo transcript; every returned value is snapshotted (str + fields) at return time and re-checked at the end; "
         "distinct = distinct (template pair, call sequences, interleaving) tuples")
